@@ -149,6 +149,9 @@ private:
 
                 if( isdigit( ch ))
                 {
+                    io_error_if( k + 1 >= sizeof( _text_buffer )
+                               , "pnm: sample value has too many digits" );
+
                     _text_buffer[ k++ ] = static_cast< char >( ch );
                 }
                 else if( k )
@@ -158,7 +161,7 @@ private:
                 }
                 else if( ch == EOF || !isspace( ch ))
                 {
-                    return;
+                    io_error( "pnm: text data ends or is malformed before the declared number of samples" );
                 }
             }
 
@@ -196,7 +199,7 @@ private:
                 }
                 else if( ch == EOF || !isspace( ch ))
                 {
-                    return;
+                    io_error( "pnm: text data ends or is malformed before the declared number of samples" );
                 }
             }
         }
